@@ -19,8 +19,18 @@ POWER = sl('power', 1)           # the multiplier _digit_number_parse collected 
 
 def make_parser():
     lang = CULTURE.split('-')[0]
-    modname = {'en': 'english', 'es': 'spanish', 'fr': 'french', 'pt': 'portuguese', 'de': 'german', 'it': 'italian', 'nl': 'dutch'}[lang]
     import importlib
+    if lang in ('zh', 'ja'):
+        # digit literals of the CJK cultures go through CJKNumberParser -> the inherited _digit_number_parse / _get_digital_value
+        from recognizers_number.number.cjk_parsers import CJKNumberParser
+        modname = {'zh': 'chinese', 'ja': 'japanese'}[lang]
+        m = importlib.import_module('recognizers_number.number.%s.parsers' % modname)
+        cfg_cls = getattr(m, modname.capitalize() + 'NumberParserConfiguration')
+        try:
+            return CJKNumberParser(cfg_cls(CultureInfo(CULTURE)))
+        except TypeError:
+            return CJKNumberParser(cfg_cls())
+    modname = {'en': 'english', 'es': 'spanish', 'fr': 'french', 'pt': 'portuguese', 'de': 'german', 'it': 'italian', 'nl': 'dutch'}[lang]
     m = importlib.import_module('recognizers_number.number.%s.parsers' % modname)
     cfg_cls = [getattr(m, n) for n in dir(m) if n.endswith('NumberParserConfiguration') and n.lower().startswith(modname[:4])][0]
     return BaseNumberParser(cfg_cls(CultureInfo(CULTURE)))
@@ -32,6 +42,9 @@ if ENGINE == 'sx':
     PARSERS.getcontext = symdec.getcontext
 FMT = SUPPORTED_CULTURES.get(CULTURE)
 # the culture's own marks: what the output formatter uses is also what the culture writes
+if FMT is None:
+    class FMT:                       # zh-cn has no long-format entry: numerals are written with ',' groups and '.' decimals and printed by str()
+        decimals_mark, thousands_mark = '.', ','
 DEC_MARK = FMT.decimals_mark
 GRP_MARK = FMT.thousands_mark
 OWN_DEC = DEC_MARK
